@@ -13,7 +13,8 @@ use soroban_sdk::{Address, Bytes, IntoVal};
 
 pub struct C14;
 
-const NT: usize = 3;
+const NT: usize = 4; // two Stellar assets, the current-source InterchainToken, a harness token without amount checks
+const SLOPPY: usize = 3;
 const NS: usize = 3;
 const NR: usize = 4; // receivers 0..2 are accounts, receiver 3 is the gas service itself
 const START: i128 = 500;
@@ -68,6 +69,7 @@ fn op() -> impl Strategy<Value = Op> {
 }
 
 fn resolve(a: Amt, bal: i128) -> i128 {
+    // (for the unchecked harness token i128::MAX would only overflow the token's own arithmetic)
     match a {
         Amt::Zero => 0,
         Amt::Neg => -1,
@@ -85,10 +87,13 @@ impl Property for C14 {
         "C14"
     }
     fn rule(&self) -> &'static str {
-        "proptest histories (<=30 quick / <=60 thorough ops) over 3 tokens (two Stellar asset contracts and one current-source InterchainToken), 3 spenders, 4 receivers (three accounts and the gas service itself): pay_gas, add_gas, collect_fees, refund with amounts 0, -1, 1, small, exact balance, balance+1, i128::MAX (relative to the spender's balance for payments and to the service's balance for payouts), payouts authorised by the collector, by a stranger, by the contract owner, or by nobody. Oracle: per-token running balance = paid + added - collected - refunded, compared with token.balance(service) and all spender/receiver balances after every step; payments need amount > 0 and move exactly that; payouts need the collector and never exceed the balance; one gas service event per movement carrying the same token and amount; refused calls leave the ledger snapshot identical. non-trivial = history touches >= 2 tokens and contains a successful payout; distinct by Debug hash"
+        "proptest histories (<=30 quick / <=60 thorough ops) over 4 tokens (two Stellar asset contracts, one current-source InterchainToken, and a harness token that checks neither sign nor balance, so that the service's own amount checks are what is tested), 3 spenders, 4 receivers (three accounts and the gas service itself): pay_gas, add_gas, collect_fees, refund with amounts 0, -1, 1, small, exact balance, balance+1, i128::MAX (relative to the spender's balance for payments and to the service's balance for payouts), payouts authorised by the collector, by a stranger, by the contract owner, or by nobody. Oracle: per-token running balance = paid + added - collected - refunded, compared with token.balance(service) and all spender/receiver balances after every step; payments need amount > 0 and move exactly that; payouts need the collector and never exceed the balance; one gas service event per movement carrying the same token and amount; refused calls leave the ledger snapshot identical. non-trivial = history touches >= 2 tokens and contains a successful payout; distinct by Debug hash"
     }
     fn assumptions(&self) -> Vec<&'static str> {
-        vec!["a zero-amount refund by the collector moves nothing and is not decided by the statement (Either)"]
+        vec![
+            "a zero-amount refund by the collector moves nothing and is not decided by the statement (Either)",
+            "with the unchecked harness token, payments beyond the spender's balance and refunds outside 0..=held are the token's business, not the service's (Either)",
+        ]
     }
     fn cases(&self, tier: Tier) -> u64 {
         tier.pick(3000, 40000)
@@ -120,6 +125,12 @@ impl Property for C14 {
             it.mint(s, &START);
         }
         tokens.push(it.address.clone());
+        let sloppy_id = env.register(crate::probes::SloppyToken, ());
+        let sloppy = crate::probes::SloppyTokenClient::new(&env, &sloppy_id);
+        for s in &spenders {
+            sloppy.mint(s, &START);
+        }
+        tokens.push(sloppy_id.clone());
 
         let mut sbal = [[START; NS]; NT]; // [token][spender]
         let mut rbal = [[0i128; NR]; NT];
@@ -153,7 +164,7 @@ impl Property for C14 {
                 (Op::Pay { .. } | Op::Add { .. }, _) | (_, By::Collector) => env.mock_all_auths(),
                 (_, By::Nobody) => env.mock_auths(&[]),
                 (Op::Collect { receiver, amount, .. }, b) => {
-                    let a = resolve(*amount, held[ti]);
+                    let a = resolve(if ti == SLOPPY && *amount == Amt::Max { Amt::BalPlus1 } else { *amount }, held[ti]);
                     let who = if b == By::Stranger { &stranger } else { &gas.owner };
                     let inv = MockAuthInvoke {
                         contract: &gas.id,
@@ -164,7 +175,7 @@ impl Property for C14 {
                     env.mock_auths(&[MockAuth { address: who, invoke: &inv }]);
                 }
                 (Op::Refund { receiver, amount, .. }, b) => {
-                    let a = resolve(*amount, held[ti]);
+                    let a = resolve(if ti == SLOPPY && *amount == Amt::Max { Amt::BalPlus1 } else { *amount }, held[ti]);
                     let who = if b == By::Stranger { &stranger } else { &gas.owner };
                     let inv = MockAuthInvoke {
                         contract: &gas.id,
@@ -180,8 +191,14 @@ impl Property for C14 {
             match op {
                 Op::Pay { spender, amount: a, payload_len, .. } => {
                     let si = *spender as usize % NS;
-                    amount = resolve(*a, sbal[ti][si]);
-                    expect = if amount > 0 && amount <= sbal[ti][si] { E::Ok } else { E::Fail };
+                    amount = resolve(if ti == SLOPPY && *a == Amt::Max { Amt::BalPlus1 } else { *a }, sbal[ti][si]);
+                    expect = if amount > 0 && amount <= sbal[ti][si] {
+                        E::Ok
+                    } else if ti == SLOPPY && amount > sbal[ti][si] {
+                        E::Either
+                    } else {
+                        E::Fail
+                    };
                     let payload = seeded_bytes(step as u64, *payload_len as usize);
                     let tok = Token { address: taddr.clone(), amount };
                     let r = gas.client.try_pay_gas(&sender, &sstr(&env, "dest-chain"), &sstr(&env, "dest-addr"), &Bytes::from_slice(&env, &payload), &spenders[si], &tok, &Bytes::from_slice(&env, &[9, 9]));
@@ -195,8 +212,14 @@ impl Property for C14 {
                 }
                 Op::Add { spender, amount: a, .. } => {
                     let si = *spender as usize % NS;
-                    amount = resolve(*a, sbal[ti][si]);
-                    expect = if amount > 0 && amount <= sbal[ti][si] { E::Ok } else { E::Fail };
+                    amount = resolve(if ti == SLOPPY && *a == Amt::Max { Amt::BalPlus1 } else { *a }, sbal[ti][si]);
+                    expect = if amount > 0 && amount <= sbal[ti][si] {
+                        E::Ok
+                    } else if ti == SLOPPY && amount > sbal[ti][si] {
+                        E::Either
+                    } else {
+                        E::Fail
+                    };
                     let tok = Token { address: taddr.clone(), amount };
                     let r = gas.client.try_add_gas(&sender, &sstr(&env, "msg-id"), &spenders[si], &tok);
                     ok = matches!(r, Ok(Ok(())));
@@ -208,7 +231,7 @@ impl Property for C14 {
                 }
                 Op::Collect { by, receiver, amount: a, .. } => {
                     let ri = *receiver as usize % NR;
-                    amount = resolve(*a, held[ti]);
+                    amount = resolve(if ti == SLOPPY && *a == Amt::Max { Amt::BalPlus1 } else { *a }, held[ti]);
                     expect = if *by == By::Collector && amount > 0 && amount <= held[ti] { E::Ok } else { E::Fail };
                     let tok = Token { address: taddr.clone(), amount };
                     let r = gas.client.try_collect_fees(&receivers[ri], &tok);
@@ -224,8 +247,14 @@ impl Property for C14 {
                 }
                 Op::Refund { by, receiver, amount: a, .. } => {
                     let ri = *receiver as usize % NR;
-                    amount = resolve(*a, held[ti]);
-                    expect = if *by != By::Collector || amount < 0 || amount > held[ti] {
+                    amount = resolve(if ti == SLOPPY && *a == Amt::Max { Amt::BalPlus1 } else { *a }, held[ti]);
+                    expect = if *by != By::Collector {
+                        E::Fail
+                    } else if ti == SLOPPY && (amount < 0 || amount > held[ti]) {
+                        // refund relies on the token to refuse out-of-range amounts; with a token that
+                        // checks nothing the outcome is not the gas service's promise
+                        E::Either
+                    } else if amount < 0 || amount > held[ti] {
                         E::Fail
                     } else if amount == 0 {
                         E::Either
